@@ -1,7 +1,9 @@
 package sym
 
 import (
+	"fmt"
 	"go/types"
+	"os"
 	"runtime"
 	"time"
 	"strings"
@@ -236,7 +238,18 @@ func (x *fnExec) runRegion(R *Region, pending map[int][]*Path) (exits map[int][]
 func (x *fnExec) runLoop(L *Region, entry []*Path) map[int][]*Path {
 	exits := map[int][]*Path{}
 	wave := entry
-	for k := 0; len(wave) > 0; k++ {
+	// K counts only iterations whose continuation depended on symbolic data (the path condition grew);
+	// loops over concrete data run to completion under the step budget.
+	pcLen := func(ps []*Path) int {
+		n := 0
+		for _, p := range ps {
+			n += len(p.st.pc)
+		}
+		return n*1000 + len(ps)
+	}
+	k := 0
+	for iter := 0; len(wave) > 0; iter++ {
+		before := pcLen(wave)
 		if k > x.e.cfg.LoopBound {
 			for _, p := range wave {
 				x.e.unwindFailure(p.st, x.fn, L.header)
@@ -248,6 +261,9 @@ func (x *fnExec) runLoop(L *Region, entry []*Path) map[int][]*Path {
 			exits[tgt] = append(exits[tgt], ps...)
 		}
 		wave = backs
+		if len(wave) > 0 && pcLen(wave) != before {
+			k++
+		}
 	}
 	return exits
 }
@@ -260,7 +276,12 @@ func (x *fnExec) mergePaths(ps []*Path) []*Path {
 	var res []*Path
 	for _, p := range ps {
 		merged := false
-		for i, q := range res {
+		lo := 0
+		if len(res) > 6 {
+			lo = len(res) - 6 // bound the quadratic search: only recent candidates
+		}
+		for i := lo; i < len(res); i++ {
+			q := res[i]
 			if q.defers != p.defers {
 				continue
 			}
@@ -287,7 +308,12 @@ func (e *Engine) mergeOutcomes(outs []Outcome) []Outcome {
 	for _, o := range outs {
 		merged := false
 		if !o.panicked {
-			for i, q := range res {
+			lo := 0
+			if len(res) > 6 {
+				lo = len(res) - 6
+			}
+			for i := lo; i < len(res); i++ {
+				q := res[i]
 				if q.panicked {
 					continue
 				}
@@ -342,8 +368,8 @@ func (x *fnExec) runBlock(p *Path, b *ssa.BasicBlock, idx int, deliver deliverFn
 		if e.stats.Steps > e.cfg.MaxSteps {
 			panic(e.abort("step budget exhausted (%d)", e.cfg.MaxSteps))
 		}
-		if e.stats.Steps&0xfff == 0 && !e.deadline.IsZero() && time.Now().After(e.deadline) {
-			panic(e.abort("wall-clock budget of %d s exhausted", e.cfg.TimeoutS))
+		if e.stats.Steps&0xfff == 0 {
+			e.tick()
 		}
 		ins := b.Instrs[idx]
 		switch in := ins.(type) {
@@ -661,4 +687,21 @@ func (e *Engine) concretize(st *State, t *Term) []concrete {
 		e.stats.Forks++
 	}
 	return res
+}
+
+// tick enforces the wall-clock budget and prints progress when GOSYM_PROGRESS is set.
+func (e *Engine) tick() {
+	now := time.Now()
+	if !e.deadline.IsZero() && now.After(e.deadline) {
+		panic(e.abort("wall-clock budget of %d s exhausted", e.cfg.TimeoutS))
+	}
+	if e.progress && now.Sub(e.lastTick) > 5*time.Second {
+		e.lastTick = now
+		var top []string
+		for i := len(e.stack) - 1; i >= 0 && len(top) < 6; i-- {
+			top = append(top, e.stack[i].Name())
+		}
+		fmt.Fprintf(os.Stderr, "[progress] steps=%d forks=%d merges=%d queries=%d solver=%.1fs depth=%d stack=%s\n", e.stats.Steps, e.stats.Forks, e.stats.Merges,
+			e.solver.NQueries, e.solver.SolverTime.Seconds(), len(e.stack), strings.Join(top, "<"))
+	}
 }
